@@ -144,6 +144,18 @@ func vkSeedWorld(w *vkSrvWorld) {
 			vkRR("sig.t. 300 IN RRSIG A 13 2 300 20400101000000 20200101000000 12345 t. AAAA")}
 		return m
 	}
+	// an exact entry BELOW the name whose NXDOMAIN cut is admitted afterwards (the zone changed in between): the
+	// exact entry answers first on every path, whatever the later rungs of the ladder hold for the name
+	sc["keep.nx.t."] = func(req *dns.Msg) *dns.Msg {
+		m := vkReplyTo(req)
+		m.AuthenticatedData = true
+		m.Answer = []dns.RR{vkRR("keep.nx.t. 300 IN A 192.0.2.31"),
+			vkRR("keep.nx.t. 300 IN RRSIG A 13 3 300 20400101000000 20200101000000 12345 t. AAAA")}
+		for i := 0; i < 40; i++ { // large enough to exceed a 512-octet client's limit
+			m.Answer = append(m.Answer, vkRR(fmt.Sprintf("keep.nx.t. 300 IN A 192.0.3.%d", i+1)))
+		}
+		return m
+	}
 	sc["nx.t."] = func(req *dns.Msg) *dns.Msg {
 		m := vkReplyTo(req)
 		m.Rcode = dns.RcodeNameError
@@ -234,7 +246,7 @@ func vkSeedWorld(w *vkSrvWorld) {
 	}
 	// admission: ask each once through the decoded entry, DO set so the complete answer is stored
 	client := netip.MustParseAddrPort("198.51.100.7:5300")
-	for _, n := range []string{"hit.t.", "sig.t.", "tgt.t.", "cn.t.", "cnx.t.", "cnns.t.", "cnad.t.", "cnsig.t.", "cnu.t.", "nx.t.", "nd.t.", "ede.t.", "big.t.", "mid.t.", "xtra.t.", "sf.t.", "ref.t."} {
+	for _, n := range []string{"hit.t.", "sig.t.", "tgt.t.", "cn.t.", "cnx.t.", "cnns.t.", "cnad.t.", "cnsig.t.", "cnu.t.", "keep.nx.t.", "nx.t.", "nd.t.", "ede.t.", "big.t.", "mid.t.", "xtra.t.", "sf.t.", "ref.t."} {
 		for _, cd := range []bool{false, true} {
 			p := vkBasePkt(n, dns.TypeA)
 			p.OPT, p.DO, p.Size, p.CD = true, true, 4096, cd
@@ -245,13 +257,14 @@ func vkSeedWorld(w *vkSrvWorld) {
 	w.serve(vkPathDecoded, "tcp", client, p.build())
 }
 
-var vkSrvTargets = []string{"hit.t.", "cn.t.", "cnx.t.", "cnns.t.", "cnad.t.", "tgt.t.", "cnsig.t.", "cnu.t.", "sig.t.", "nx.t.", "x.nx.t.", "nxa.t.", "nd.t.", "ede.t.", "big.t.", "mid.t.", "xtra.t.", "optup.t.", "opt2up.t.", "sf.t.", "ref.t.", "miss.t.", "hosts.t.", "1.10.in-addr.arpa.", "."}
+var vkSrvTargets = []string{"hit.t.", "cn.t.", "cnx.t.", "cnns.t.", "cnad.t.", "tgt.t.", "cnsig.t.", "cnu.t.", "sig.t.", "nx.t.", "x.nx.t.", "keep.nx.t.", "nxa.t.", "nd.t.", "ede.t.", "big.t.", "mid.t.", "xtra.t.", "optup.t.", "opt2up.t.", "sf.t.", "ref.t.", "miss.t.", "hosts.t.", "1.10.in-addr.arpa.", "."}
 
 func vkSrvConfigs(thorough bool) []vkSrvCfg {
 	cfgs := []vkSrvCfg{
 		{Name: "plain"},
 		{Name: "cookie+nsid+hosts", Cookie: true, NSID: true, Hosts: true},
 		{Name: "no8198-no9520", NoRFC8198: true, NoRFC9520: true, Cookie: true},
+		{Name: "ecs", ECS: true}, // client-subnet forwarding on for every client: the request OPT then carries a subnet of sdns's own making
 	}
 	if thorough {
 		cfgs = append(cfgs, vkSrvCfg{Name: "prefetch+ecs", Prefetch: true, ECS: true, NSID: true}, vkSrvCfg{Name: "entry-ratelimit", EntryRL: 100000, Cookie: true})
